@@ -179,7 +179,46 @@ def rule_loops(ctx):
     ctx.covered('R03.4', 'loops of the Kepler solver and Stumpff/Stiefel helpers: constant bound, or recorded termination argument with its guard present', n, floor=11, samples=samples[:6])
 
 
+def rule_bisection_nan(ctx):
+    """R03.6: the bisection fallback halves a bracket [X_min, X_max] on the sign of s(X) = r0 X + eta0 G2 + zeta0 G3 - dt.
+    On hyperbolic orbits the Stiefel functions grow like exp(sqrt(-beta) X) and overflow to inf - inf = NaN far beyond the
+    root (the initial bracket reaches dt/q). A NaN fails `s >= 0` and is silently treated as "root is above X": the bracket
+    collapses onto X_max, the solver returns NaN and the caller substitutes straight-line motion. The decision must treat a
+    non-finite s explicitly (s is monotonic in X, so a NaN means X is too far out)."""
+    tu = cfront.load_tu('integrator_whfast.c')
+    fn = tu.func(SOLVER)
+    n = 0
+    samples = []
+    for loop in walk(cfront.body(fn)):
+        if loop.get('kind') != 'DoStmt':
+            continue
+        body_ = loop['inner'][0]
+        for ifs in walk(body_):
+            if ifs.get('kind') != 'IfStmt':
+                continue
+            c = strip(ifs['inner'][0])
+            if c.get('kind') != 'BinaryOperator' or c['opcode'] not in ('>=', '>', '<', '<='):
+                continue
+            assigns = [render(a['inner'][0]) for a in walk(ifs) if is_assign(a)]
+            if not ({'X_max', 'X_min'} <= set(assigns)):
+                continue
+            n += 1
+            var = render(c['inner'][0])
+            guarded = any(x.get('kind') == 'CallExpr' and callee_name(x) in ('isnan', '__builtin_isnan', 'isfinite', '__builtin_isfinite', 'isinf', '__builtin_isinf', '__builtin_isinf_sign')
+                          and var in render(x) for x in walk(body_))
+            where = 'src/integrator_whfast.c:%s %s' % (line_of(ifs), SOLVER)
+            if not guarded:
+                ctx.report('R03.6', 'bisection:nan-blind', where,
+                           'the bracket update "if (%s) X_max = X; else X_min = X;" takes the else branch when %s is NaN (overflow of the Stiefel functions for hyperbolic orbits and long steps): '
+                           'the bracket collapses onto X_max and the step degenerates to straight-line motion' % (render(c), var))
+            else:
+                samples.append('%s: non-finite %s handled before the bracket update' % (where, var))
+    anchor(n >= 1, 'bracket update of the bisection fallback in %s' % SOLVER)
+    ctx.covered('R03.6', 'bisection fallback of the Kepler solver decides on a finite value (a NaN from overflowing Stiefel functions is handled explicitly)', n, floor=1, samples=samples)
+
+
 def run(ctx):
+    rule_bisection_nan(ctx)
     tables.rule_tables(ctx, 'R03.1')
     callers = rule_scope(ctx)
     rule_mass_parameter(ctx, callers)
